@@ -72,6 +72,8 @@ type Focus struct {
 	ModSvcPct  int            // percent of cases with a module service
 	Boundary   int            // percent of cases allowed to draw numeric boundary values (known finding trigger)
 	PrefixProv int            // percent preference for prefix-related provider addresses
+	Only20Pct  int            // percent of cases restricted to 20-byte addresses everywhere (avoids a listed finding's trigger)
+	only20     bool           // drawn per case
 }
 
 func FocusFor(prop string, tier string) Focus {
@@ -119,6 +121,8 @@ func FocusFor(prop string, tier string) Focus {
 		mul(2, KUpdateBind)
 	case "C16":
 		mul(2, KCall, KRespond, KKill, KPause)
+	case "C19":
+		f.Only20Pct = 60
 	case "C20":
 		f.Boundary = 10
 	}
@@ -160,7 +164,7 @@ func GenConfig(t *rapid.T, f Focus) Config {
 			script = append(script, ModOutcome{Result: sh.Result, Output: sh.Output, Class: sh.Class})
 		}
 		c.ModSvc = &ModSvcCfg{
-			Provider: rapid.SampledFrom([]string{hx(rep(0x5d, 20)), hx(rep(0xa0, 12))}).Draw(t, "modprov"),
+			Provider: modProv(t, f),
 			Owner:    Signers[4],
 			Pricing:  fmt.Sprintf(`{"price":"%dstake"}`, base),
 			Deposit:  dep,
@@ -169,6 +173,13 @@ func GenConfig(t *rapid.T, f Focus) Config {
 		}
 	}
 	return c
+}
+
+func modProv(t *rapid.T, f Focus) string {
+	if f.only20 {
+		return hx(rep(0x5d, 20))
+	}
+	return rapid.SampledFrom([]string{hx(rep(0x5d, 20)), hx(rep(0xa0, 12))}).Draw(t, "modprov")
 }
 
 // ---------------------------------------------------------------------------------------------
@@ -185,6 +196,11 @@ type GenState struct {
 
 func NewGenState(cfg Config, f Focus, s *Snapshot) *GenState {
 	return &GenState{Cfg: cfg, F: f, Snap: s, reqSeen: map[string]bool{}}
+}
+
+// DrawCaseFlags draws the per-case generator switches
+func (f *Focus) DrawCaseFlags(t *rapid.T) {
+	f.only20 = pct(t, "only_20_byte_addresses", f.Only20Pct)
 }
 
 func (g *GenState) Observe(r *StepRec) {
@@ -331,7 +347,7 @@ func (g *GenState) genService(t *rapid.T, wantDefined bool) string {
 }
 
 func (g *GenState) genProviderAddr(t *rapid.T) string {
-	if pct(t, "prefix_prov", g.F.PrefixProv) {
+	if !g.F.only20 && pct(t, "prefix_prov", g.F.PrefixProv) {
 		return pick(t, "nonsigner", NonSigners)
 	}
 	return pick(t, "prov_signer", Signers)
@@ -370,7 +386,10 @@ func (g *GenState) genProvidersList(t *rapid.T, service string) []string {
 		}
 	}
 	all := AllAddrs()
-	if g.Cfg.ModSvc != nil {
+	if g.F.only20 {
+		all = append([]string{}, Signers...)
+	}
+	if g.Cfg.ModSvc != nil && (!g.F.only20 || len(g.Cfg.ModSvc.Provider) == 40) {
 		all = append(all, g.Cfg.ModSvc.Provider)
 	}
 	n := pick(t, "n_providers", []int{1, 2, 3, 1, 2, 4, 10})
@@ -473,6 +492,21 @@ func (g *GenState) knownCtx(t *rapid.T) string {
 	return pick(t, "any_ctx", g.CtxIDs)
 }
 
+// moduleCtx: a context created by the emulated consumer module (a host module only manages
+// the contexts it created itself); an unknown ID if there is none
+func (g *GenState) moduleCtx(t *rapid.T) string {
+	var own []string
+	for _, id := range g.CtxIDs {
+		if rc, ok := g.Snap.Ctxs[id]; ok && rc.ModuleName != "" {
+			own = append(own, id)
+		}
+	}
+	if len(own) == 0 || pct(t, "unknown_ctx", 3) {
+		return hx(rep(0x11, 40))
+	}
+	return pick(t, "module_ctx", own)
+}
+
 func (g *GenState) ctxConsumer(id string) string {
 	if rc, ok := g.Snap.Ctxs[id]; ok {
 		return hx(rc.Consumer)
@@ -565,7 +599,85 @@ func (g *GenState) genKind(t *rapid.T, exclude map[string]bool) string {
 
 // GenAction draws the next action from the current world.
 func (g *GenState) GenAction(t *rapid.T) Action {
+	if g.F.Prop == "C20" && pct(t, "boundary_msg", 15) {
+		return g.genBoundaryMsg(t)
+	}
 	return g.genOfKind(t, g.genKind(t, nil))
+}
+
+const maxI64 = int64(^uint64(0) >> 1)
+
+// genBoundaryMsg: messages with boundary shapes - empty coin lists, maximal provider lists, zero and
+// maximal numeric fields, empty optional strings, longest names. Most are meant to pass stateless
+// validation; what the handler does with them must never be a panic.
+func (g *GenState) genBoundaryMsg(t *rapid.T) Action {
+	s := g.Snap
+	kind := pick(t, "b_kind", []string{KBind, KCall, KUpdateBind, KEnable, KDefine, KUpdateCtx, KRespond, KWithdraw, KSetWithdr, KModCreate, KModUpdate})
+	a := g.genOfKind(t, kind)
+	a.Tag = "boundary"
+	bigCoins := []*int64{nil, i64(1), i64(maxI64), i64(0)}
+	switch kind {
+	case KBind:
+		a.Deposit = pick(t, "b_deposit", bigCoins)
+		a.QoS = pick(t, "b_qos", []uint64{1, ^uint64(0), 1 << 63, uint64(g.Cfg.MaxTimeout)})
+		a.Options = pick(t, "b_options", []string{"{}", "null", "[]", "0", `""`})
+		a.Pricing = pick(t, "b_pricing", []string{`{"price":"0stake"}`, `{"price":"9000000000000000000stake"}`, `{"price":"0.000000000000000001stake"}`,
+			`{"price":"1stake","promotions_by_time":[],"promotions_by_volume":[]}`, `{"price":"1stake","promotions_by_volume":[{"volume":9223372036854775807,"discount":"0.1"}]}`,
+			`{"price":"1atom"}`, `{"price":"1stake","promotions_by_time":null}`})
+	case KUpdateBind:
+		a.Deposit = pick(t, "b_deposit", bigCoins)
+		a.QoS = pick(t, "b_qos", []uint64{0, ^uint64(0), 1})
+		a.Pricing = pick(t, "b_pricing", []string{"", `{"price":"0stake"}`, `{"price":"9000000000000000000stake"}`, `{"price":"1atom"}`})
+		a.Options = pick(t, "b_options", []string{"{}", "null"})
+	case KEnable:
+		a.Deposit = pick(t, "b_deposit", bigCoins)
+	case KDefine:
+		a.Service = pick(t, "b_name", []string{strings.Repeat("n", 70), "z", "Z-_9", pick(t, "def_name", ServiceNames)})
+		a.Desc = pick(t, "b_desc", []string{"", strings.Repeat("d", 280)})
+		a.Tags = pick(t, "b_tags", [][]string{nil, {}, {strings.Repeat("t", 70)}, {"1", "2", "3", "4", "5", "6", "7", "8", "9", "10"}})
+		a.Schemas = pick(t, "b_schemas", []string{SchemasOK, `{"input":{},"output":{}}`, `{}`, `{"input":null,"output":null}`,
+			`{"input":{"type":"object","properties":{"a":{"$ref":"#/definitions/x"}}},"output":{}}`, `{"input":{"type":5},"output":{}}`})
+	case KCall, KModCreate:
+		if pct(t, "b_ten_providers", 40) {
+			all := AllAddrs()
+			a.Providers = append([]string{}, all[:10]...)
+		} else if pct(t, "b_empty_provider", 20) {
+			a.Providers = append(a.Providers, "")
+		}
+		a.FeeCap = pick(t, "b_cap", bigCoins)
+		a.Timeout = pick(t, "b_timeout", []int64{1, g.Cfg.MaxTimeout, maxI64, 0})
+		a.Repeated = pct(t, "b_repeated", 60)
+		a.Freq = pick(t, "b_freq", []uint64{0, 1, uint64(g.Cfg.MaxTimeout), ^uint64(0), 1 << 63})
+		a.Total = pick(t, "b_total", []int64{-1, 1, maxI64, 0})
+		a.Input = pick(t, "b_input", []string{InputOK, `{"header":{}}`, `{"header":{},"body":{},"x":[1,2,3]}`})
+		if kind == KModCreate {
+			a.Threshold = pick(t, "b_threshold", []uint32{1, 0, 10, ^uint32(0)})
+		}
+	case KUpdateCtx, KModUpdate:
+		a.Timeout = pick(t, "b_timeout", []int64{0, 1, maxI64, g.Cfg.MaxTimeout})
+		a.Freq = pick(t, "b_freq", []uint64{0, 1, ^uint64(0), 1 << 63})
+		a.Total = pick(t, "b_total", []int64{0, -1, maxI64})
+		a.FeeCap = pick(t, "b_cap", bigCoins)
+		if pct(t, "b_ten_providers", 30) {
+			a.Providers = append([]string{}, AllAddrs()[:10]...)
+		}
+	case KRespond:
+		if len(s.ActiveID) == 0 || pct(t, "b_reqid", 30) {
+			a.ReqID = pick(t, "b_req", []string{hx(rep(0xff, 58)), hx(rep(0x00, 58))})
+		}
+		a.Result = pick(t, "b_result", []string{`{"code":200,"message":""}`, `{"code":500,"message":""}`, `{"code":400,"message":"` + strings.Repeat("m", 300) + `"}`})
+		if strings.Contains(a.Result, "200") {
+			a.Output = pick(t, "b_output", []string{`{"header":{}}`, `{"header":{},"body":{"a":[[[[[]]]]]}}`, `{}`, `null`, `0`})
+			a.OutClass = "unknown"
+		} else {
+			a.Output, a.OutClass = "", "none"
+		}
+	case KWithdraw:
+		a.Provider = pick(t, "b_wprov", []string{"", hx(rep(0xb1, 1)), hx(rep(0x07, 255)), a.Provider})
+	case KSetWithdr:
+		a.Withdraw = pick(t, "b_waddr", []string{hx(rep(0x01, 1)), hx(rep(0x07, 255)), hx([]byte("stake")), a.Withdraw})
+	}
+	return a
 }
 
 func (g *GenState) genOfKind(t *rapid.T, kind string) Action {
@@ -715,11 +827,17 @@ func (g *GenState) genOfKind(t *rapid.T, kind string) Action {
 			a.OutClass = "none"
 		}
 		return a
-	case KPause, KStart, KKill, KModPause, KModStart, KModKill:
+	case KPause, KStart, KKill:
 		id := g.knownCtx(t)
+		return Action{Kind: kind, CtxID: id, Signer: g.signerFor(t, g.ctxConsumer(id))}
+	case KModPause, KModStart, KModKill:
+		id := g.moduleCtx(t)
 		return Action{Kind: kind, CtxID: id, Signer: g.signerFor(t, g.ctxConsumer(id))}
 	case KUpdateCtx, KModUpdate:
 		id := g.knownCtx(t)
+		if kind == KModUpdate {
+			id = g.moduleCtx(t)
+		}
 		a := Action{Kind: kind, CtxID: id, Signer: g.signerFor(t, g.ctxConsumer(id))}
 		rc := s.Ctxs[id]
 		if pct(t, "upd_providers", 30) {
